@@ -53,7 +53,7 @@ def obligations(tier):
                    stubs=[REG], bounds="a custom object type registered for 2.0 or 2.1 only x referenced from a 2.0 / 2.1 Relationship or Sighting x allow_custom"))
     obls.append(CH("marking_definition_uses_registered_class", H, "marking_definition_forms", t, mode="E1s", functions=["stix2.v21.common.MarkingDefinition.__init__",
                    "stix2.v20.common.MarkingDefinition.__init__", "stix2.v21.common.MarkingProperty.clean"] + F[:2], stubs=[REG],
-                   bounds="2 versions x 3 definition types (two registered custom markings, statement) x 7 forms of the definition (dict, instance of each registered "
+                   bounds="2 versions x 4 definition types (two registered custom markings, statement, tlp) x 7 forms of the definition (dict, instance of each registered "
                           "class, built-in instances, JSON text, junk): refused, or an instance of the class registered for the type that round trips"))
     obls.append(JOB("type_name_rules", "props.j_regex", "job_type_names", 120, engine="re2z3", functions=F[10:11],
                     bounds="all strings of length 3..250 (regex inclusion: accepted => obeys the naming rule), both spec versions"))
